@@ -279,7 +279,7 @@ impl DIDUrl {
 
   /// Parse a [`DIDUrl`] from a string.
   pub fn parse(input: impl AsRef<str>) -> Result<Self, Error> {
-    let did_url: BaseDIDUrl = BaseDIDUrl::parse(input)?;
+    let did_url: BaseDIDUrl = crate::did::parse_base_did_url(input.as_ref())?;
     Self::from_base_did_url(did_url)
   }
 
@@ -387,7 +387,7 @@ impl DIDUrl {
     }
 
     // Parse DID Url.
-    let base_did_url: BaseDIDUrl = BaseDIDUrl::parse(self.to_string())?.join(segment)?;
+    let base_did_url: BaseDIDUrl = crate::did::parse_base_did_url(&self.to_string())?.join(segment)?;
     Self::from_base_did_url(base_did_url)
   }
 
